@@ -2,6 +2,7 @@
 import json
 import os
 import re
+import threading
 
 import vlib
 
@@ -288,7 +289,9 @@ SUBCMDS = {
     "http-synthetic": ["http", "synthetic"], "http-server": ["http", "server"], "http-transport": ["http", "transport"],
     "shell-exits": ["shell", "exits"], "shell-sizes": ["shell", "sizes"], "func": ["func"], "cancel": ["cancel"],
     "overlap": ["overlap"], "http-stream": ["http", "stream"], "shell-nostart": ["shell", "nostart"],
+    "shell-background": ["shell", "background"],
 }
+PARALLEL = ("shell-background",)   # mostly sleeping (4 s): run beside the other commands
 
 
 HOW = {
@@ -298,6 +301,10 @@ HOW = {
                    "child of one parent / cancelled right after the first execution): `plain` = the server answers 201 at once, Execute must return; "
                    "`hang-cancel` = the server holds the request, the context is cancelled once the request is in flight (or after 3 s), Execute "
                    "must return; verdict after the patience only, then the server ends the old stream so that the harness can clean up",
+    "shell-background": "jobsh shell background: the shell prints, starts a background process that keeps the captured stdout / stderr pipe open for "
+                        "0.5 / 1.5 / 4 s (and then writes `late`, or stays silent) and exits at once with 0 (or 3); all variants run in parallel, no "
+                        "timing asserted; expected: the command's own outcome (status OK iff the shell exited 0, Execute returns nil then / the "
+                        "*exec.ExitError otherwise) and everything written to the pipes (`earlylate`)",
     "shell-nostart": "jobsh shell nostart: ONE ShellJob (command prints o<exit>.<step> / e<exit>.<step> and exits with the number in a file); "
                      "executions in which exec cannot start the shell (context already cancelled / deadline passed before Execute, PATH without "
                      "bash/sh, PATH with a bash/sh that is not executable) as first execution of a new job and between executions that run; "
@@ -440,9 +447,24 @@ def run(ctx):
     quick = ctx.tier == "quick"
     failures, mismatches = [], []
     recs = []
+    side = {}
+
+    def run_side(name):
+        f = []
+        side[name] = (collect(binp, name, SUBCMDS[name], f, HOW.get(name)), f)
+    threads = [threading.Thread(target=run_side, args=(n,)) for n in PARALLEL]
+    for t in threads:
+        t.start()
     for name, args in SUBCMDS.items():
+        if name in PARALLEL:
+            continue
         recs += collect(binp, name, args, failures, HOW.get(name) or
                         "jobsh %s: one execution at a time on the real job, observed through the public getters" % " ".join(args))
+    for t in threads:
+        t.join()
+    for name in PARALLEL:
+        recs += side[name][0]
+        failures += side[name][1]
     conc_recs = []
     cb = racep or binp
     for kind, rounds in (("func", 2500), ("curl", 1500), ("shell", 40)) if quick else (("func", 40000), ("curl", 20000), ("shell", 600)):
@@ -503,7 +525,8 @@ def run(ctx):
                 "the only feasible overlap for Curl (mutex spans Do); executions repeated on one CurlJob while the server keeps the previous "
                 "response's body open (stalled / trickling) under 4 relations of the two execution contexts, the later one plain or held-and-"
                 "cancelled; executions of one ShellJob that never start the shell (context cancelled / expired, shell missing / not executable) "
-                "as first execution and between executions that run; 8 goroutines on one object with id-carrying outcomes (tuple read at quiescence "
+                "as first execution and between executions that run; commands whose shell exits while a background process keeps the "
+                "pipes open for 0.5 / 1.5 / 4 s and writes late; 8 goroutines on one object with id-carrying outcomes (tuple read at quiescence "
                 "only: getters lock separately); resource counts around 300 executions. non-trivial = distinct (job, input) cases. "
                 "Model: every distinct observed (code,status), (exit,status,err), function case and the full outcome scripts are "
                 "evaluated inside Coq (vm_compute) and compared.",
